@@ -1,3 +1,25 @@
 import LdkModel.Props.C01
+import LdkModel.Props.C01Stats
 #print axioms Ldk.C01.commit_outputs_partition
 #print axioms Ldk.C01.outputs_plus_fee_le_channel_value
+#print axioms Ldk.C01.isDust_agrees
+#print axioms Ldk.C01.stats_accept_implies_build_affords
+#print axioms Ldk.C01.accepted_commitment_conserves
+#print axioms Ldk.C01.stats_has_output
+#print axioms Ldk.C01.limit_le_outbound_capacity
+#print axioms Ldk.C01.minimum_ge_peer_minimum
+#print axioms Ldk.C01.limit_le_in_flight_remaining
+#print axioms Ldk.C01.limit_respects_in_flight
+#print axioms Ldk.C01.limit_pos_respects_in_flight
+#print axioms Ldk.C01.limit_zero_when_slots_full
+#print axioms Ldk.C01.outbound_capacity_eq
+#print axioms Ldk.C01.outbound_capacity_excludes_reserve
+#print axioms Ldk.C01.outbound_capacity_le
+#print axioms Ldk.C01.limit_excludes_reserve
+#print axioms Ldk.C01.funder_limit_covers_fee
+#print axioms Ldk.C01.stats_of_cover
+#print axioms Ldk.C01.limit_accepted_by_peer_stats_partial
+#print axioms Ldk.C01.limit_accepted_by_peer_stats_nospike
+#print axioms Ldk.C01.limit_accepted_by_peer_partial
+#print axioms Ldk.C01.limit_accepted_by_peer_nospike
+#print axioms Ldk.C01.fundee_limit_not_accepted_example
